@@ -38,6 +38,11 @@ pub trait Write: Sized {
         ensures r is Ok ==> final(self).sink() == old(self).sink() + buf@,
                 r is Err ==> old(self).sink().is_prefix_of(final(self).sink()),
                 final(self).infallible() == old(self).infallible(), old(self).infallible() ==> r is Ok;
+    // std::io::Write::write: may accept any prefix of the buffer (short write)
+    fn write(&mut self, buf: &[u8]) -> (r: Result<usize, IoError>)
+        ensures r is Ok ==> r->Ok_0 <= buf@.len() && final(self).sink() == old(self).sink() + buf@.subrange(0, r->Ok_0 as int),
+                r is Err ==> final(self).sink() == old(self).sink(),
+                final(self).infallible() == old(self).infallible(), old(self).infallible() ==> r is Ok && r->Ok_0 == buf@.len();
     fn write_u8(&mut self, x: u8) -> (r: Result<(), IoError>)
         ensures r is Ok ==> final(self).sink() == old(self).sink() + seq![x],
                 r is Err ==> old(self).sink().is_prefix_of(final(self).sink()),
@@ -64,6 +69,8 @@ impl Write for Vec<u8> {
     fn write_all(&mut self, buf: &[u8]) -> (r: Result<(), IoError>)
         ensures r is Ok
     { unimplemented!() }
+    #[verifier::external_body]
+    fn write(&mut self, buf: &[u8]) -> (r: Result<usize, IoError>) { unimplemented!() }
     #[verifier::external_body]
     fn write_u8(&mut self, x: u8) -> (r: Result<(), IoError>) ensures r is Ok { unimplemented!() }
     #[verifier::external_body]
